@@ -139,10 +139,14 @@ def hand_enums(meta):
         out.append((name, E, {o: n for n, o in members.items()}))
     # declarations a protocol library user may well write: members carrying extra data through a custom
     # __new__, methods / properties / class attributes on the enum, aliases
-    ns = {"IntEnum": IntEnum, "meta": meta}
+    from enum import Enum
+
+    ns = {"IntEnum": IntEnum, "Enum": Enum, "meta": meta}
     exec(EXOTIC_SRC, ns)
     out.append(("WithLabel", ns["WithLabel"], {0: "STAND", 1: "CHAIR", 2: "FLOOR"}))
     out.append(("WithMethods", ns["WithMethods"], {1: "Low", 5: "High"}))
+    out.append(("Classic", ns["Classic"], {1: "Red", 2: "Green"}))
+    out.append(("Friendly", ns["Friendly"], {3: "Cat", 4: "Dog"}))
     # declarations through the functional API of a member-less base (the branch of the metaclass call that
     # takes names): ordinals are start + position (start defaults to 1), or the values given
     out.append(("Func0", ns["Func0"], {0: "A", 1: "B", 2: "C"}))
@@ -180,6 +184,26 @@ class WithMethods(IntEnum, metaclass=meta):
 
     def describe(self):
         return "%s=%d" % (self.name, self)
+
+
+class Classic(int, Enum, metaclass=meta):
+    """The pre-IntEnum way of declaring an integer enum: formatting goes through Enum, not int."""
+    Red = 1
+    Green = 2
+
+
+class Friendly(IntEnum, metaclass=meta):
+    Cat = 3
+    Dog = 4
+
+    def __str__(self):
+        return "%s (%d)" % (self.name, self.value)
+
+    def __format__(self, spec):
+        return format(str(self), spec)
+
+    def __repr__(self):
+        return "<Friendly %s>" % self.name
 
 
 class FuncBase(IntEnum, metaclass=meta):
